@@ -19,6 +19,9 @@ package sign
 // Output gate (C01): the session's result is produced only for a signature its verifier accepts for exactly this
 // session's group key and message.
 //@ func (*round3).Finalize
+// (C04, C05) the round handed to the handler is one the session announced: its number is within the final round
+// number, so the handler holds a queue for it and waits for every party before finalizing it
+//@   ensures[C04,C05] result1 == nil ==> result0.Number() <= old(r.Helper.info.FinalRoundNumber)
 //@   nopanic[C05]
 //@   requires s3ok(r) && r.M != nil && forall(j, party.ID, indom(r.z, j) ==> r.z[j] != nil)
 //@   assert_at[C01] ResultRound "return r.ResultRound(sig)": typeis(arg1, taproot.Signature) ==> (r.taproot && bip340_ok(taprootPub, arg1.(taproot.Signature), r.M) && bval(taprootPub) == xbytes(ptval(r.Y)))
@@ -42,6 +45,8 @@ package sign
 //@   loop 1: invariant each(helper.partyIDs[:rangeindex+1], j, indom(v_result.VerificationShares.Points, j))
 // (induction on the session object) the first round starts from the state invariant its methods assume
 //@   ensures result1 == nil ==> (typeis(result0, *round1) && s1ok(result0.(*round1)))
+// (C04, C05) the announced final round number covers every round the session can reach, the identifiable-abort rounds included
+//@   ensures[C04,C05] result1 == nil ==> result0.(*round1).Helper.info.FinalRoundNumber >= 3
 
 // ---- hedged nonces (C11): the nonce stream is the digest of a hash KEYED with a key derived from the secret share,
 // over (session hash, the whole message, 32 fresh random bytes) in this order; d_i and e_i are the first two unit
@@ -51,6 +56,9 @@ package sign
 //@ spec fn scu_from(Int) Int
 //@ spec fn hadvu(Int) Int
 //@ func (*round1).Finalize
+// (C04, C05) the round handed to the handler is one the session announced: its number is within the final round
+// number, so the handler holds a queue for it and waits for every party before finalizing it
+//@   ensures[C04,C05] result1 == nil ==> result0.Number() <= old(r.Helper.info.FinalRoundNumber)
 //@   nopanic[C05]
 //@   requires s1ok(r) && out != nil && !closed(out) && r.Helper.hash != nil && r.Helper.hash.h != nil && !held(r.Helper.mtx)
 //@   let key = keyed(kdf(deriveHashKeyContext, benc(iface(r.s_i))))
@@ -71,7 +79,7 @@ package sign
 
 // ---- round state invariants and acceptance gates of the signing rounds (C03, C05)
 // (maps are total over the signers once the start function accepted: every signer holds a share)
-//@ pred s1ok(r *round1) := r != nil && r.Helper != nil && r.Helper.info.Group != nil && r.Y != nil && r.YShares != nil && r.s_i != nil
+//@ pred s1ok(r *round1) := r != nil && r.Helper != nil && r.Helper.info.FinalRoundNumber >= 3 && r.Helper.info.Group != nil && r.Y != nil && r.YShares != nil && r.s_i != nil
 //@ pred s2ok(r *round2) := r != nil && s1ok(r.round1) && r.D != nil && r.E != nil && r.d_i != nil && r.e_i != nil && r.D != r.E
 //@ pred s3ok(r *round3) := r != nil && s2ok(r.round2) && r.R != nil && r.RShares != nil && r.c != nil && r.z != nil && r.Lambda != nil && r.z != r.Lambda
 // what the CBOR decoder leaves in the content templates (A-CBOR): pre-shaped interface values stay non-nil
@@ -99,6 +107,9 @@ package sign
 // and that the challenge is the verifier's schnorr_chal(R, Y, M) were attempted as assert_at obligations and are NOT
 // claimed: the solvers return unknown on them within the budget -- see DESIGN.md 10.8.)
 //@ func (*round2).Finalize
+// (C04, C05) the round handed to the handler is one the session announced: its number is within the final round
+// number, so the handler holds a queue for it and waits for every party before finalizing it
+//@   ensures[C04,C05] result1 == nil ==> result0.Number() <= old(r.Helper.info.FinalRoundNumber)
 //@   nopanic[C05]
 //@   requires s2ok(r) && out != nil && !closed(out) && r.M != nil
 // (the handler finalizes a round only after every party's broadcast was stored: C07)
